@@ -9,7 +9,7 @@ LEVEL_TEXT = ("For every enumerated program, graph on <=3 (4) nodes and initial 
               "applied, call-backs see the current status dict, and the run stops iff all rates are zero or tmax is reached.")
 LEVEL_NOTE = "trusted: harness re-evaluation of the user functions; reads the simulator's local `nodes_by_rate` for the held-rate check (skipped if absent); horizon and node bounds"
 RULE = "one spec = (program, graph, initial status vector, horizon, return mode); all draw outcomes and all lazily chosen rate-table entries enumerated; non-trivial = execution with >=1 event"
-BOUNDS = {"quick": "9 programs; all graphs on <=3 nodes + C4,S4; every initial status vector (4 nodes: <=2 non-default); horizon 3 (2 on 4 nodes), unbounded for SIR-like",
+BOUNDS = {"quick": "12 programs (incl. integer status labels with a falsy label, heterogeneous independent decays, rates of order 1e-8); all graphs on <=3 nodes + C4,S4; every initial status vector (4 nodes: <=2 non-default); horizon 3 (2 on 4 nodes), unbounded for SIR-like",
           "thorough": "adds P4,K4; horizon 4/3; all return modes"}
 ASSUMPTIONS = ["influence sets of the catalogue cover every node whose rate can change (precondition of the property)", "bounded horizon for non-terminating programs"]
 
